@@ -237,6 +237,9 @@ pub enum Action {
     ClientPoll { client: usize },
     JournalStep,
     ToWorker { worker: WorkerId },
+    /// several queued messages are handed to the worker back to back (one read of the socket),
+    /// without letting the worker's spawned futures run in between
+    ToWorkerBurst { worker: WorkerId },
     ToServer { worker: WorkerId },
     CloseConn { worker: WorkerId },
     Sched,
@@ -322,6 +325,11 @@ impl Sim {
         };
         tako::verif::clock::set_offset(Duration::ZERO);
         let launch = Rc::new(RefCell::new(LaunchShared::default()));
+        if case.genv >= 1 {
+            let mut l = launch.borrow_mut();
+            l.slow_stop_mod = 3;
+            l.slow_stop_salt = case.choices.first().map(|c| c.1 % 3).unwrap_or(0);
+        }
         let shared = Rc::new(RefCell::new(Shared {
             step: 0,
             pcalls: Vec::new(),
@@ -385,6 +393,13 @@ impl Sim {
         for ws in world.workers.values() {
             if !ws.q.is_empty() {
                 out.push((w.to_worker, Action::ToWorker { worker: ws.id }));
+            }
+        }
+        if self.genv >= 1 {
+            for ws in world.workers.values() {
+                if ws.q.len() >= 2 {
+                    out.push((w.to_worker / 3, Action::ToWorkerBurst { worker: ws.id }));
+                }
             }
         }
         for ws in world.workers.values() {
@@ -572,6 +587,7 @@ impl Sim {
                         worker: ws.id,
                         body: summarize_to_worker(&m),
                         processed: true,
+                        log_pos: 0,
                     });
                 }
             }
@@ -585,6 +601,7 @@ impl Sim {
                         worker: ws.id,
                         body: summarize_from_worker(&m),
                         processed: true,
+                        log_pos: 0,
                     });
                 }
             }
@@ -893,6 +910,7 @@ impl Sim {
             }
             Action::ToWorker { worker } => {
                 let alive = self.world.workers.get(&worker).map(|w| w.alive).unwrap_or(false);
+                let log_pos = self.world.launch.borrow().log.len();
                 let m = self.world.deliver_to_worker(worker);
                 if let Some(m) = m {
                     let body = summarize_to_worker(&m);
@@ -902,11 +920,33 @@ impl Sim {
                         worker,
                         body,
                         processed: alive,
+                        log_pos,
                     });
                     d
                 } else {
                     format!("to-worker w{worker}: <nothing>")
                 }
+            }
+            Action::ToWorkerBurst { worker } => {
+                let alive = self.world.workers.get(&worker).map(|w| w.alive).unwrap_or(false);
+                let mut ds = Vec::new();
+                for _ in 0..3 {
+                    let log_pos = self.world.launch.borrow().log.len();
+                    let Some(m) = self.world.deliver_to_worker(worker) else {
+                        break;
+                    };
+                    let body = summarize_to_worker(&m);
+                    ds.push(format!("{body:?}"));
+                    self.obs.borrow_mut().to_worker.push(MsgObs {
+                        step,
+                        worker,
+                        body,
+                        processed: alive,
+                        log_pos,
+                    });
+                }
+                self.obs.borrow_mut().class("burst-delivery");
+                format!("to-worker w{worker} (burst): {}", ds.join(" | "))
             }
             Action::ToServer { worker } => {
                 let r = self.world.deliver_to_server(worker);
@@ -919,6 +959,7 @@ impl Sim {
                         worker,
                         body,
                         processed: true,
+                        log_pos: 0,
                     });
                     if let Some(reason) = lost {
                         obs.losses.push(LossObs {
